@@ -143,6 +143,7 @@ PINNED = [
     '@a{k, t = "}"}', '@a(k, t = {)})', '@a(k}, t = 1)', '@a{k(, t = 1}',
     '@comment{ @a{k} }', '@COMMENT x', '@comment', '@string(a = b)', '@String{jan = "J"}@a{k, m = JAN}',
     '@a{k, t = {x}} junk %@b{k2}', '@@a{k}', '@a @b{k}', '@1{k}', '@a{k, 1 = 2}',
+    '@a{k, A = 1, a = 2, Author = {X}, author = {Y}}',     # duplicates differing in case, upper-case first
 ]
 
 def gen(tier, rng):
